@@ -216,8 +216,11 @@ func genC03(tier string, r *rng) {
 		for k := 0; k < nek; k++ {
 			tmpl.ExtKeyUsage = append(tmpl.ExtKeyUsage, x509.ExtKeyUsage(r.intn(14)))
 		}
-		if r.intn(4) == 0 {
-			tmpl.UnknownExtKeyUsage = []asn1.ObjectIdentifier{{1, 3, 6, 1, 4, 1, 311, 10, 3, r.intn(100)}}
+		if r.intn(3) == 0 {
+			// unknown purposes, alone or next to known ones (smart-card logon, document signing, a private arc)
+			for k := 1 + r.intn(3); k > 0; k-- {
+				tmpl.UnknownExtKeyUsage = append(tmpl.UnknownExtKeyUsage, [][]int{{1, 3, 6, 1, 4, 1, 311, 20, 2, 2}, {1, 3, 6, 1, 5, 5, 7, 3, 36}, {1, 3, 6, 1, 4, 1, 311, 10, 3, r.intn(100)}, {2, 999, r.intn(5)}}[r.intn(4)])
+			}
 		}
 		var sanGT []string
 		if r.intn(2) == 0 {
